@@ -60,6 +60,9 @@ func judgeC10(hst Hist) *h.Verdict {
 		if res.Status >= 400 {
 			return v.Failf("valid-request-rejected/"+op.K, "step %d: well-formed %s answered %d %.200s", step, op.K, res.Status, res.Body)
 		}
+		if op.K == "update" && res.Sub != nil && snapshot(res.Sub.supi).NRecords > len(res.Sub.sess) {
+			v.Label("a-record-was-split")
+		}
 		// (1) references of all live sessions pairwise different, across subscribers
 		type owner struct {
 			sub  int
@@ -155,6 +158,9 @@ func genC10(t *rapid.T) Hist {
 		default:
 			op.Sess = rapid.IntRange(0, 3).Draw(t, "sess")
 			op.UUs = []UU{{RG: int32(rapid.IntRange(1, 3).Draw(t, "rg")), Req: 10, Conts: []Cont{{Q: "offline", Tot: int32(rapid.IntRange(0, 99).Draw(t, "tot")), Pm: -1}}}}
+			if k == "update" && rapid.IntRange(0, 4).Draw(t, "bulk") == 0 {
+				op.UUs[0].Jumbo = 2000 // two of these on one session make its record split (what a reference designates must survive that)
+			}
 			if k == "release" {
 				op.Trig = "FINAL"
 				liveCount[s]--
